@@ -354,6 +354,7 @@ func (e *End) Write(b []byte) (int, error) {
 		if d.Window > 0 && d.queuedLocked() >= d.Window {
 			sig := d.sig
 			d.mu.Unlock()
+			d.net.s.Fault("write-blocked-window-full")
 			if !dl.IsZero() {
 				w := time.Until(dl)
 				if w <= 0 {
